@@ -75,7 +75,7 @@ func (c *selCase) ready(self *Thread) bool {
 		return false
 	}
 	if c.send {
-		return ch.closed || len(ch.buf) < ch.cap || ch.firstWaiter(ch.recvq, self) != nil
+		return ch.closed || len(ch.buf) < ch.cap || (len(ch.buf) == 0 && ch.firstWaiter(ch.recvq, self) != nil)
 	}
 	return len(ch.buf) > 0 || ch.closed || ch.firstWaiter(ch.sendq, self) != nil
 }
@@ -177,7 +177,8 @@ func (s *Sched) selectOp(cases []*selCase, hasDefault bool, what string) int {
 		if ch.closed {
 			panic(runtimeError("send on closed channel"))
 		}
-		if w := ch.firstWaiter(ch.recvq, t); w != nil {
+		if w := ch.firstWaiter(ch.recvq, t); w != nil && len(ch.buf) == 0 {
+			// a receiver can only be handed a value directly while the buffer is empty (FIFO)
 			w.c.rv, w.c.rok = c.val, true
 			s.complete(w)
 			s.hbPair(t, w.t)
